@@ -129,6 +129,20 @@ def ev(e, env):
             return fn_(*[ev(a, env) for a in e.args])
         except (KeyError, IndexError, ValueError, TypeError) as ex:
             raise Raised('%s' % type(ex).__name__)
+    if isinstance(e, ast.Call) and isinstance(e.func, ast.Name) and e.func.id in env and callable(env[e.func.id]) and not isinstance(env[e.func.id], Closure) \
+            and all(k.arg for k in e.keywords) and not any(isinstance(a, ast.Starred) for a in e.args):
+        # a python callable the caller of the evaluator put into the environment (a recording constructor, a stdlib function)
+        try:
+            return env[e.func.id](*[ev(a, env) for a in e.args], **{k.arg: ev(k.value, env) for k in e.keywords})
+        except (KeyError, IndexError, ValueError, TypeError) as ex:
+            raise Raised('%s' % type(ex).__name__)
+    if isinstance(e, ast.Call) and isinstance(e.func, ast.Attribute) and e.keywords and all(k.arg for k in e.keywords):
+        o_ = ev(e.func.value, env)
+        if isinstance(o_, Obj) and callable(o_.__dict__.get(e.func.attr)):
+            try:
+                return o_.__dict__[e.func.attr](*[ev(a, env) for a in e.args], **{k.arg: ev(k.value, env) for k in e.keywords})
+            except (KeyError, IndexError, ValueError, TypeError) as ex:
+                raise Raised('%s' % type(ex).__name__)
     if isinstance(e, ast.Call) and isinstance(e.func, ast.Attribute) and not e.keywords:
         o_ = ev(e.func.value, env)
         mt_ = env.get('__methods__')
